@@ -126,6 +126,9 @@ def sweep_impl(rep, tier, seed):
                     ("subband", lambda: fil.subband(0.0, 2, o, **kw)),
                     ("extract_bands", lambda: fil.extract_bands(0, 8, 4, os.path.join(tmp, "ob"), **kw)),
                     ("extract_chans", lambda: fil.extract_chans([1, 5], os.path.join(tmp, "oc"), **kw)),
+                    # more output files than one batch of open writers: a later batch must not touch earlier files
+                    ("extract_bands", lambda: fil.extract_bands(0, 8, 2, os.path.join(tmp, "obb"), batch_size=1, **kw)),
+                    ("extract_chans", lambda: fil.extract_chans([1, 5, 6], os.path.join(tmp, "ocb"), batch_size=2, **kw)),
                 ]
                 for what, call in ops:
                     inp = dict(writer=what, nbits=nbits, gulp=gulp)
